@@ -40,6 +40,11 @@ Theorem c07_seamless_target_nu_partial : C07_seamless_target_nu.
 Proof. exact c07_seamless_target_nu_proof. Qed.
 Print Assumptions c07_seamless_target_nu_partial.
 
+(* ... with files_on_hub discharged from files_final (merged blocks at or below the ready hub's LIB) *)
+Theorem c07_seamless_target_nu_final_partial : C07_seamless_target_nu_final.
+Proof. exact c07_seamless_target_nu_final_proof. Qed.
+Print Assumptions c07_seamless_target_nu_final_partial.
+
 (* number mode, final blocks only (the stateful filter of the fix "each final block once"), any stop block: each
    delivered block extends the previous one; complete on the final chain.  No files_final hypothesis. *)
 Theorem c07_seamless_num_final : C07_seamless_num_final.
